@@ -16,8 +16,8 @@ theorem SameRes.trans {a b c : St} (h1 : SameRes a b) (h2 : SameRes b c) : SameR
   obtain ⟨b1, b2, b3, b4, b5⟩ := h2
   exact ⟨b1.trans a1, b2.trans a2, b3.trans a3, b4.trans a4, b5.trans a5⟩
 
-/-- `b`'s request log is `a`'s plus requests satisfying `Q` -/
-def ReqsGrow (Q : Req → Prop) (a b : St) : Prop := ∀ r ∈ b.reqs, r ∈ a.reqs ∨ Q r
+/-- `b`'s request log is `a`'s plus requests satisfying `Q` (and hook requests, about which nothing is claimed) -/
+def ReqsGrow (Q : Req → Prop) (a b : St) : Prop := ∀ r ∈ b.reqs, r ∈ a.reqs ∨ Q r ∨ r.kind = .hook
 
 theorem ReqsGrow.rfl' {Q} {a : St} : ReqsGrow Q a a := fun _ h => Or.inl h
 
@@ -30,9 +30,10 @@ theorem ReqsGrow.trans {Q} {a b c : St} (h1 : ReqsGrow Q a b) (h2 : ReqsGrow Q b
 theorem ReqsGrow.mono {Q Q' : Req → Prop} {a b : St} (h : ReqsGrow Q a b) (hq : ∀ r, Q r → Q' r) :
     ReqsGrow Q' a b := by
   intro r hr
-  rcases h r hr with h | h
+  rcases h r hr with h | h | h
   · exact Or.inl h
-  · exact Or.inr (hq r h)
+  · exact Or.inr (Or.inl (hq r h))
+  · exact Or.inr (Or.inr h)
 
 /-! ### one exchange -/
 
@@ -46,7 +47,19 @@ theorem exchange_reqs (c : Cfg) (k tp t a) (st : St) :
   intro r hr
   simp only [exchange, List.mem_append, List.mem_replicate] at hr
   rcases hr with ⟨_, h⟩ | h
-  · exact Or.inr h
+  · exact Or.inr (Or.inl h)
+  · exact Or.inl h
+
+theorem hookReqs_same (tp : Nat) (codes : List Nat) (st : St) : SameRes st (hookReqs tp codes st) :=
+  ⟨rfl, rfl, rfl, rfl, rfl⟩
+
+theorem hookReqs_cur (tp : Nat) (codes : List Nat) (st : St) : (hookReqs tp codes st).cur = st.cur := rfl
+
+theorem hookReqs_reqs (Q : Req → Prop) (tp : Nat) (codes : List Nat) (st : St) : ReqsGrow Q st (hookReqs tp codes st) := by
+  intro r hr
+  simp only [hookReqs, List.mem_append, List.mem_reverse, List.mem_map] at hr
+  rcases hr with ⟨x, _, rfl⟩ | h
+  · exact Or.inr (Or.inr rfl)
   · exact Or.inl h
 
 /-! ### DiagnosticSessionControl -/
@@ -69,55 +82,109 @@ theorem dscOnce_reqs (c : Cfg) (E : Ecu) (k tp s) (st : St) :
   unfold dscOnce
   cases E.g st.cur s <;> exact exchange_reqs c k tp s _ st
 
+theorem dscHooked_ans (c : Cfg) (E : Ecu) (k tp s) (st : St) :
+    (dscHooked c E k tp s st).2 = hookedAns c E st.cur s := by
+  unfold dscHooked
+  cases hookedAns c E st.cur s <;> rfl
+
+theorem dscHooked_cur (c : Cfg) (E : Ecu) (k tp s) (st : St) :
+    (dscHooked c E k tp s st).1.cur = if hookedAns c E st.cur s = .pos then s else st.cur := by
+  unfold dscHooked
+  cases hookedAns c E st.cur s <;> simp [exchange, hookReqs]
+
+theorem dscHooked_same (c : Cfg) (E : Ecu) (k tp s) (st : St) : SameRes st (dscHooked c E k tp s st).1 := by
+  unfold dscHooked
+  cases hookedAns c E st.cur s <;> exact ⟨rfl, rfl, rfl, rfl, rfl⟩
+
+theorem dscHooked_reqs (c : Cfg) (E : Ecu) (k tp s) (st : St) :
+    ReqsGrow (fun r => r = ⟨k, s, st.cur, tp⟩) st (dscHooked c E k tp s st).1 := by
+  have h1 : ReqsGrow (fun r => r = ⟨k, s, st.cur, tp⟩) st
+      (exchange c k tp s (hookedAns c E st.cur s) (hookReqs tp c.preHook st)) :=
+    (hookReqs_reqs _ tp c.preHook st).trans (exchange_reqs c k tp s _ (hookReqs tp c.preHook st))
+  unfold dscHooked
+  cases hh : hookedAns c E st.cur s with
+  | pos => rw [hh] at h1; exact h1.trans (hookReqs_reqs _ tp c.postHook _)
+  | nrc n => rw [hh] at h1; exact h1
+  | silent => rw [hh] at h1; exact h1
+
 theorem dsc_eq (c : Cfg) (E : Ecu) (k tp s) (st : St) :
     dsc c E k tp s st =
       if (dscOnce c E k tp s st).2 = .nrc NRC_CNC ∧ c.hooks = true then
-        (if (dscOnce c E k tp s (dscOnce c E k tp s st).1).2 = .pos then dscOnce c E k tp s (dscOnce c E k tp s st).1
-         else ((dscOnce c E k tp s (dscOnce c E k tp s st).1).1, (dscOnce c E k tp s st).2))
+        (if (dscHooked c E k tp s (dscOnce c E k tp s st).1).2 = .pos then dscHooked c E k tp s (dscOnce c E k tp s st).1
+         else if (dscHooked c E k tp s (dscOnce c E k tp s st).1).2 = .silent then dscHooked c E k tp s (dscOnce c E k tp s st).1
+         else ((dscHooked c E k tp s (dscOnce c E k tp s st).1).1, (dscOnce c E k tp s st).2))
       else dscOnce c E k tp s st := rfl
 
-/-- either no hook retry, or one retry in the same session with the same (negative) answer -/
+/-- no hook retry; or a hooked retry in the same session whose state and answer are described by `edge` -/
 theorem dsc_cases (c : Cfg) (E : Ecu) (k tp s) (st : St) :
-    dsc c E k tp s st = dscOnce c E k tp s st ∨
+    (dsc c E k tp s st = dscOnce c E k tp s st ∧ edge c E st.cur s = E.g st.cur s) ∨
     (E.g st.cur s = .nrc NRC_CNC ∧ (dscOnce c E k tp s st).1.cur = st.cur ∧
-      dsc c E k tp s st = ((dscOnce c E k tp s (dscOnce c E k tp s st).1).1, .nrc NRC_CNC)) := by
+      (dsc c E k tp s st).1 = (dscHooked c E k tp s (dscOnce c E k tp s st).1).1 ∧
+      (dsc c E k tp s st).2 = edge c E st.cur s ∧
+      (edge c E st.cur s = .pos ↔ hookedAns c E st.cur s = .pos)) := by
   rw [dsc_eq]
   by_cases h : (dscOnce c E k tp s st).2 = .nrc NRC_CNC ∧ c.hooks = true
   · rw [if_pos h]
     right
     have ha : E.g st.cur s = .nrc NRC_CNC := by rw [← dscOnce_ans c E k tp s st]; exact h.1
     have hc : (dscOnce c E k tp s st).1.cur = st.cur := by rw [dscOnce_cur, ha]; simp
-    have h2 : (dscOnce c E k tp s (dscOnce c E k tp s st).1).2 ≠ .pos := by
-      rw [dscOnce_ans, hc, ha]; simp
-    rw [if_neg h2, h.1]
-    exact ⟨ha, hc, rfl⟩
+    have hh := dscHooked_ans c E k tp s (dscOnce c E k tp s st).1
+    rw [hc] at hh
+    refine ⟨ha, hc, ?_⟩
+    have hcond : c.hooks = true ∧ E.g st.cur s = .nrc NRC_CNC := ⟨h.2, ha⟩
+    cases hv : hookedAns c E st.cur s with
+    | pos =>
+      rw [hv] at hh
+      have hedge : edge c E st.cur s = .pos := by unfold edge; rw [if_pos hcond, hv]
+      rw [if_pos hh, hedge]
+      exact ⟨rfl, hh, Iff.rfl⟩
+    | silent =>
+      rw [hv] at hh
+      have hedge : edge c E st.cur s = .silent := by unfold edge; rw [if_pos hcond, hv]
+      have hne : (dscHooked c E k tp s (dscOnce c E k tp s st).1).2 ≠ .pos := by rw [hh]; intro h'; cases h'
+      rw [if_neg hne, if_pos hh, hedge]
+      exact ⟨rfl, hh, ⟨fun h' => (by cases h'), fun h' => (by cases h')⟩⟩
+    | nrc n =>
+      rw [hv] at hh
+      have hedge : edge c E st.cur s = .nrc NRC_CNC := by unfold edge; rw [if_pos hcond, hv]
+      have hne : (dscHooked c E k tp s (dscOnce c E k tp s st).1).2 ≠ .pos := by rw [hh]; intro h'; cases h'
+      have hne2 : (dscHooked c E k tp s (dscOnce c E k tp s st).1).2 ≠ .silent := by rw [hh]; intro h'; cases h'
+      rw [if_neg hne, if_neg hne2, hedge]
+      exact ⟨rfl, h.1, ⟨fun h' => (by cases h'), fun h' => (by cases h')⟩⟩
   · rw [if_neg h]
-    left; rfl
+    left
+    refine ⟨rfl, ?_⟩
+    rw [dscOnce_ans] at h
+    unfold edge
+    split
+    · rename_i h'; exact absurd ⟨h'.2, h'.1⟩ h
+    · rfl
 
-theorem dsc_ans (c : Cfg) (E : Ecu) (k tp s) (st : St) : (dsc c E k tp s st).2 = E.g st.cur s := by
-  rcases dsc_cases c E k tp s st with h | ⟨ha, _, h⟩
-  · rw [h]; exact dscOnce_ans c E k tp s st
-  · rw [h, ha]
+theorem dsc_ans (c : Cfg) (E : Ecu) (k tp s) (st : St) : (dsc c E k tp s st).2 = edge c E st.cur s := by
+  rcases dsc_cases c E k tp s st with ⟨h, he⟩ | ⟨_, _, _, h, _⟩
+  · rw [h, he]; exact dscOnce_ans c E k tp s st
+  · exact h
 
 theorem dsc_cur (c : Cfg) (E : Ecu) (k tp s) (st : St) :
-    (dsc c E k tp s st).1.cur = if E.g st.cur s = .pos then s else st.cur := by
-  rcases dsc_cases c E k tp s st with h | ⟨ha, hc, h⟩
-  · rw [h]; exact dscOnce_cur c E k tp s st
-  · rw [h]
-    show (dscOnce c E k tp s (dscOnce c E k tp s st).1).1.cur = _
-    rw [dscOnce_cur, hc, ha]
+    (dsc c E k tp s st).1.cur = if edge c E st.cur s = .pos then s else st.cur := by
+  rcases dsc_cases c E k tp s st with ⟨h, he⟩ | ⟨_, hc, h1, _, hiff⟩
+  · rw [h, he]; exact dscOnce_cur c E k tp s st
+  · rw [h1, dscHooked_cur, hc]
+    by_cases hp : hookedAns c E st.cur s = .pos
+    · rw [if_pos hp, if_pos (hiff.2 hp)]
+    · rw [if_neg hp, if_neg (fun h => hp (hiff.1 h))]
 
 theorem dsc_same (c : Cfg) (E : Ecu) (k tp s) (st : St) : SameRes st (dsc c E k tp s st).1 := by
-  rcases dsc_cases c E k tp s st with h | ⟨_, _, h⟩
+  rcases dsc_cases c E k tp s st with ⟨h, _⟩ | ⟨_, _, h1, _, _⟩
   · rw [h]; exact dscOnce_same c E k tp s st
-  · rw [h]; exact (dscOnce_same c E k tp s st).trans (dscOnce_same c E k tp s _)
+  · rw [h1]; exact (dscOnce_same c E k tp s st).trans (dscHooked_same c E k tp s _)
 
 theorem dsc_reqs (c : Cfg) (E : Ecu) (k tp s) (st : St) :
     ReqsGrow (fun r => r = ⟨k, s, st.cur, tp⟩) st (dsc c E k tp s st).1 := by
-  rcases dsc_cases c E k tp s st with h | ⟨_, hc, h⟩
+  rcases dsc_cases c E k tp s st with ⟨h, _⟩ | ⟨_, hc, h1, _, _⟩
   · rw [h]; exact dscOnce_reqs c E k tp s st
-  · rw [h]
-    have h2 := dscOnce_reqs c E k tp s (dscOnce c E k tp s st).1
+  · rw [h1]
+    have h2 := dscHooked_reqs c E k tp s (dscOnce c E k tp s st).1
     rw [hc] at h2
     exact (dscOnce_reqs c E k tp s st).trans h2
 
@@ -173,7 +240,7 @@ theorem recover_cur (c : Cfg) (E : Ecu) (tp) (σ : List Sess) (st : St)
 
 /-- walking a valid path from the current session succeeds -/
 theorem recover_ok (c : Cfg) (E : Ecu) (tp) (σ : List Sess) (st : St)
-    (h : ValidPath E.g (st.cur :: σ)) : (recoverStack c E tp σ st).2 = true := by
+    (h : ValidPath (edge c E) (st.cur :: σ)) : (recoverStack c E tp σ st).2 = true := by
   induction σ generalizing st with
   | nil => rfl
   | cons s rest ih =>
@@ -189,7 +256,7 @@ theorem recover_ok (c : Cfg) (E : Ecu) (tp) (σ : List Sess) (st : St)
 /-! ### reset -/
 
 theorem doReset_same (c : Cfg) (E : Ecu) (tp l) (st : St) : SameRes st (doReset c E tp l st) := by
-  unfold doReset
+  unfold doReset pingReqs
   cases E.rst st.cur <;> exact ⟨rfl, rfl, rfl, rfl, rfl⟩
 
 theorem doReset_reqs (c : Cfg) (E : Ecu) (tp l) (st : St) :
@@ -199,7 +266,11 @@ theorem doReset_reqs (c : Cfg) (E : Ecu) (tp l) (st : St) :
   · simp only
     refine ((exchange_reqs c .reset tp l .pos st).mono ?_).trans ?_
     · intro r hr; subst hr; exact Or.inl rfl
-    · exact (exchange_reqs c .ping tp 0 .pos _).mono (by intro r hr; subst hr; exact Or.inr rfl)
+    · intro r hr
+      simp only [pingReqs, List.mem_append, List.mem_replicate] at hr
+      rcases hr with ⟨_, h⟩ | h
+      · exact Or.inr (Or.inl (by subst h; exact Or.inr rfl))
+      · exact Or.inl h
   · exact (exchange_reqs c .reset tp l _ st).mono (by intro r hr; subst hr; exact Or.inl rfl)
   · exact (exchange_reqs c .reset tp l _ st).mono (by intro r hr; subst hr; exact Or.inl rfl)
 
@@ -222,9 +293,10 @@ def ReqInv (c : Cfg) (st : St) : Prop := ∀ r ∈ st.reqs, ReqOK c r
 
 theorem ReqInv.grow {c : Cfg} {a b : St} (h : ReqInv c a) (g : ReqsGrow (ReqOK c) a b) : ReqInv c b := by
   intro r hr
-  rcases g r hr with h1 | h1
+  rcases g r hr with h1 | h1 | h1
   · exact h r h1
   · exact h1
+  · refine ⟨fun hk => ?_, fun hk => ?_⟩ <;> (rw [h1] at hk; cases hk)
 
 theorem prepare_none (c : Cfg) (E : Ecu) (σ : List Sess) (acc : St × Bool) (h : wantsReset c = none) :
     prepare c E σ acc = if acc.2 = true then recoverStack c E (top σ) σ acc.1 else (acc.1, true) := by
@@ -284,7 +356,7 @@ theorem prepare_reqs (c : Cfg) (E : Ecu) (σ : List Sess) (acc : St × Bool) :
 /-- on an ECU where the stack is a valid path starting with a session that can be entered from anywhere,
     preparation never fails -/
 theorem prepare_ok (c : Cfg) (E : Ecu) (σ : List Sess) (acc : St × Bool)
-    (hval : ∀ x, ValidPath E.g (x :: σ)) : (prepare c E σ acc).2 = true := by
+    (hval : ∀ x, ValidPath (edge c E) (x :: σ)) : (prepare c E σ acc).2 = true := by
   cases h : wantsReset c with
   | none =>
     rw [prepare_none _ _ _ _ h]
@@ -296,7 +368,7 @@ theorem prepare_ok (c : Cfg) (E : Ecu) (σ : List Sess) (acc : St × Bool)
     exact recover_ok _ _ _ _ _ (hval _)
 
 /-- the probe is answered positively by the ECU in session `p` and is not skipped -/
-def okp (c : Cfg) (E : Ecu) (p u : Sess) : Prop := u ∉ c.skip ∧ E.g p u = .pos
+def okp (c : Cfg) (E : Ecu) (p u : Sess) : Prop := u ∉ c.skip ∧ edge c E p u = .pos
 
 instance (c : Cfg) (E : Ecu) (p u : Sess) : Decidable (okp c E p u) := by unfold okp; infer_instance
 
@@ -393,11 +465,12 @@ theorem probeOne_step (c : Cfg) (E : Ecu) (σ : List Sess) (acc : St × Bool) (s
         refine hreqs.trans ?_
         intro q hq
         rw [c4] at hq
-        rcases hd_reqs q hq with h | h
+        rcases hd_reqs q hq with h | h | h
         · exact Or.inl h
-        · right
+        · right; left
           subst h
           exact ⟨fun _ => ⟨hs, rfl⟩, by simp⟩
+        · exact Or.inr (Or.inr h)
       · -- found grows by extensions of σ
         intro x hx
         rw [c6, hfound0] at hx
@@ -411,11 +484,11 @@ theorem probeOne_step (c : Cfg) (E : Ecu) (σ : List Sess) (acc : St × Bool) (s
       · rw [c1, hd_same.2.2.2.2, hsame.2.2.2.2]; exact hab
       · rw [c2, hd_same.2.2.2.1, hsame.2.2.2.1]
       · rw [c5, hd_same.2.1, hsame.2.1]
-        by_cases hg : E.g (top σ) s = .pos
+        by_cases hg : edge c E (top σ) s = .pos
         · simp [okp, hs, hg]
         · simp [okp, hg]
       · rw [c6, hfound0]
-        by_cases hg : E.g (top σ) s = .pos
+        by_cases hg : edge c E (top σ) s = .pos
         · by_cases ht : c.thorough = true ∨ s ∉ σ
           · simp [okp, hs, hg, ht]
           · simp [okp, hs, hg, ht]
